@@ -56,6 +56,23 @@ from exo.rewrite import LoopIR_scheduling as LS
 from exo.rewrite.new_eff import SchedulingError
 
 F = "src/exo/rewrite/LoopIR_scheduling.py"
+TG.checker_shims()
+
+
+def _preload_sources():
+    """parse, once in the parent process, the repository files whose functions the interpreter wraps (callee
+    signatures of new_eff.py, Sym / Config helpers); otherwise every pool worker parses them again"""
+    import os
+    from pyvc.run import SHARED_INDEX, repo_root
+    for rel in ("src/exo/rewrite/LoopIR_scheduling.py", "src/exo/rewrite/new_eff.py", "src/exo/core/prelude.py",
+                "src/exo/core/configs.py"):
+        try:
+            SHARED_INDEX.load(os.path.join(repo_root(), rel))
+        except Exception:
+            pass
+
+_preload_sources()
+RLIMIT = 40_000_000     # z3 resource limit per check instead of a wall-clock timer thread per check
 
 NATIVE_MODULES = ("exo.core.internal_cursors", "exo.core.LoopIR", "exo.frontend.pattern_match")
 
@@ -70,6 +87,10 @@ ASSUMPTIONS = [
     "C01(a): valid input = every loop has lo <= hi (CheckBounds rejects other procedures); the body of the rewritten "
     "loop is one observable statement `x[i] += c` / `x[i] = c` standing for an arbitrary statement that uses the "
     "iterator; rewritten statements are at the top level of the procedure, between two sibling statements",
+    "C01(a) bounds of the proof: loop bounds, quotients, cut points, shifts, strides are symbolic (unbounded); the "
+    "blocks a rewrite touches have 1-3 statements; nests are at most 2 deep; unroll_loop is checked for trip counts "
+    "0..3; bounds are literals or arguments (never expressions over enclosing iterators); guards are `n < c` or "
+    "`Cfg.a == c`; paths with unsafe_disable_check(s)=True are excluded (documented as unsafe)",
 ]
 
 
@@ -80,9 +101,16 @@ class World:
     pass
 
 
-def g_bound(g, w, name, kinds=("const", "arg"), argtype="index"):
-    """a loop bound: literal with a symbolic value, or an argument"""
-    k = g.choose(list(kinds), name + ".kind")
+def g_bound(g, w, name, kinds=None, argtype="index"):
+    """a loop bound: a literal with a symbolic value, or an argument.  The kind is chosen once per procedure
+    (all bounds literals / all bounds arguments) unless `kinds` asks for an independent choice: only code that
+    inspects the constructor of a bound (unroll, mult_loops, divide_expr) can tell mixed shapes apart."""
+    if kinds is None:
+        if w.kind is None:
+            w.kind = g.choose(["const", "arg"], "bounds.kind")
+        k = w.kind
+    else:
+        k = g.choose(list(kinds), name + ".kind")
     if k == "const":
         return cst(g.int(name))
     s = Sym(name)
@@ -95,7 +123,7 @@ def g_bound(g, w, name, kinds=("const", "arg"), argtype="index"):
 
 def new_world(g):
     w = World()
-    w.sizes, w.idxargs = [], []
+    w.sizes, w.idxargs, w.kind = [], [], None
     w.X, w.Y, w.Z, w.W = Sym("x"), Sym("y"), Sym("z"), Sym("w")
     w.I, w.J = Sym("i"), Sym("j")
     w.pre = assign(w.Z, [cst(0)], 0.0)
@@ -114,10 +142,14 @@ def loops_of(stmts):
     return out
 
 
-def close_world(g, w, focus, xdims=1):
-    """build the procedure around the statements `focus`"""
+def close_world(g, w, focus, xdims=1, facts=()):
+    """build the procedure around the statements `focus`.  `facts` are extra assertions of the procedure
+    (used when the bounds are arguments): they state what the side-condition checks of the rewrite will ask,
+    so that the *real* checks can succeed in the native replay; on the symbolic side they only remove inputs
+    on which a check that succeeded would have been wrong."""
     w.focus = list(focus)
-    preds = []
+    w.facts = [f for f in facts if not all(isinstance(x, LoopIR.Const) for x in (f.lhs, f.rhs))]
+    preds = list(w.facts)
     for l in loops_of(w.focus):
         if not (isinstance(l.lo, LoopIR.Const) and isinstance(l.hi, LoopIR.Const)):
             preds.append(bop("<=", l.lo, l.hi))
@@ -135,6 +167,7 @@ def valid_input(a):
     w = a.ghost.w
     cs = [rho(s) > 0 for s in w.sizes]
     cs += [evx(l.lo) <= evx(l.hi) for l in loops_of(w.focus)]
+    cs += [evx(f) for f in w.facts]
     return And(cs)
 
 
@@ -151,12 +184,14 @@ def _same_node(x, y):
     return x is y
 
 
-def install(c, mode, wit_out, license=None):
+def install(c, mode, wit_out, license=None, wit_in=None, extra=None):
     """mode: exact | per_tag | bag | set (module docstring).  wit_out(a, v, out_events) lists candidate
     output instances (event, env) observing the value tuple v.  license(a) must hold in the non-exact modes."""
     for m in NATIVE_MODULES:
         c.native_modules.add(m)
     c.requires(valid_input)
+    c.rlimit = RLIMIT
+    use_checks(c, *TG.CHECKS)       # whichever side-condition check the function reaches is modular
     c.raises(SchedulingError, label="SchedulingError is the only way to refuse")
 
     @c.ensures("signature, assertions and sibling statements are untouched")
@@ -174,7 +209,8 @@ def install(c, mode, wit_out, license=None):
                 return all(k in ci for k in co)
             return all(co[k] <= ci.get(k, 0) for k in co)
         oev = events(out)
-        return contained(oev, w.in_events, default_witness(w.in_events), "o")
+        wi = default_witness(w.in_events) if wit_in is None else (lambda v: wit_in(a, v, w.in_events))
+        return contained(oev, w.in_events, wi, "o")
 
     @c.ensures("every execution of the input happens in the output")
     def _(a):
@@ -213,6 +249,8 @@ def install(c, mode, wit_out, license=None):
 
     if license is not None:
         c.ensures("the check that licenses this rewrite was made on the statements concerned")(license)
+    for label, fn in (extra or []):
+        c.ensures(label)(fn)
     return c
 
 
@@ -310,7 +348,7 @@ def _(g):
     w = new_world(g)
     lo, hi = g_bound(g, w, "lo"), g_bound(g, w, "hi", argtype="size")
     cut = g_bound(g, w, "cut")
-    close_world(g, w, [for_(w.I, lo, hi, [reduce_(w.X, [rd(w.I)])])])
+    close_world(g, w, [for_(w.I, lo, hi, [reduce_(w.X, [rd(w.I)])])], facts=[bop("<=", lo, cut), bop("<=", cut, hi)])
     return {"loop_c": w.cur[0], "cut_point": cut, "__ghost__": {"w": w}}
 
 use_checks(c_cut, "Check_CompareExprs")
@@ -327,7 +365,7 @@ def _(g):
     w = new_world(g)
     lo, hi = g_bound(g, w, "lo"), g_bound(g, w, "hi", argtype="size")
     new_lo = g_bound(g, w, "new_lo")
-    close_world(g, w, [for_(w.I, lo, hi, [reduce_(w.X, [rd(w.I)])])])
+    close_world(g, w, [for_(w.I, lo, hi, [reduce_(w.X, [rd(w.I)])])], facts=[bop("<=", cst(0), new_lo)])
     return {"loop_c": w.cur[0], "new_lo": new_lo, "__ghost__": {"w": w, "lo": lo, "new_lo": new_lo}}
 
 use_checks(c_shift, "Check_IsNonNegativeExpr")
@@ -344,13 +382,630 @@ c_join = contract("C01", F, "DoJoinLoops")
 def _(g):
     w = new_world(g)
     lo1, hi1 = g_bound(g, w, "lo1"), g_bound(g, w, "hi1")
-    lo2, hi2 = g_bound(g, w, "lo2"), g_bound(g, w, "hi2", argtype="size")
-    focus = [for_(w.I, lo1, hi1, [reduce_(w.X, [rd(w.I)])]), for_(w.J, lo2, hi2, [reduce_(w.X, [rd(w.J)])])]
-    third = g.choose(["adjacent", "separated"], "adjacent")
-    if third == "separated":
+    # bounds that are arguments: the first upper bound and the second lower bound are the same argument
+    # (two different arguments can only be equal through an assertion, which amounts to the same thing)
+    lo2 = hi1 if w.kind == "arg" else g_bound(g, w, "lo2")
+    hi2 = g_bound(g, w, "hi2", argtype="size")
+    i2 = Sym("i")          # LoopIR_Compare matches iterators by *name*
+    shape = g.choose(["same bodies", "first has an extra statement", "second has an extra statement",
+                      "separated"], "bodies")
+    b1, b2 = [reduce_(w.X, [rd(w.I)])], [reduce_(w.X, [rd(i2)])]
+    if shape == "first has an extra statement":
+        b1.append(reduce_(w.Y, [rd(w.I)], 2.0))
+    if shape == "second has an extra statement":
+        b2.append(reduce_(w.Y, [rd(i2)], 2.0))
+    focus = [for_(w.I, lo1, hi1, b1), for_(i2, lo2, hi2, b2)]
+    if shape == "separated":
         focus.insert(1, assign(w.W, [cst(0)], 3.0))
+    w.f41 = shape in ("first has an extra statement", "second has an extra statement")
     close_world(g, w, focus)
     return {"loop1_c": w.cur[0], "loop2_c": w.cur[-1], "__ghost__": {"w": w}}
 
 use_checks(c_join, "Check_ExprEqvInContext")
 install(c_join, "exact", lambda a, v, oev: single_iter_witness(a, v, oev, lambda e, v: [v]))
+
+
+# ----------------------------------------------------------------------------
+# divide_loop (guard / cut / cut_and_guard / perfect)
+#
+# API: quot is a PosIntA (>= 1).  Non-linear facts (q * io + ii) are helped by
+# the definitional extension of pyvc for `a div q`, `a mod q` with a symbolic
+# divisor (fresh quotient / remainder with a == q * quo + rem, 0 <= rem < q).
+
+def _defdiv(g):
+    g.ghost["defdiv"] = True
+
+
+c_div = contract("C01", F, "DoDivideLoop")
+c_div.setup = _defdiv
+
+@c_div.inputs
+def _(g):
+    w = new_world(g)
+    lo = cst(g.int("lo"))
+    hi = g_bound(g, w, "hi", argtype="size")
+    tail, perfect = g.choose([("guard", False), ("cut", False), ("cut_and_guard", False), ("guard", True)], "tail")
+    q = g.pos("quot")
+    close_world(g, w, [for_(w.I, lo, hi, [reduce_(w.X, [rd(w.I)])])])
+    return {"loop_cursor": w.cur[0], "quot": q, "outer_iter": "io", "inner_iter": "ii", "tail": tail,
+            "perfect": perfect, "__ghost__": {"w": w, "q": q, "hi": hi}}
+
+
+def _div_tuples(a):
+    q, N = a.ghost.q, evx(a.ghost.hi)
+    def tuples(e, v):
+        n = len(e.iters())
+        if n == 2:
+            return [(S.floordiv(v[0], q), S.mod(v[0], q))]
+        if n == 1:
+            return [(v[0] - q * S.floordiv(N, q),)]
+        return []
+    return tuples
+
+use_checks(c_div, "Check_IsDivisible")
+install(c_div, "exact", lambda a, v, oev: single_iter_witness(a, v, oev, _div_tuples(a)))
+
+
+# ----------------------------------------------------------------------------
+# divide_with_recompute: same *set* of iterator values, licensed by idempotence
+
+c_rec = contract("C01", F, "DoDivideWithRecompute")
+c_rec.setup = _defdiv
+
+@c_rec.inputs
+def _(g):
+    w = new_world(g)
+    # the two known-finding classes (F42: lower bound not zero, F43: outer_hi not positive) are separate
+    # paths, so that everything outside them must be proved
+    lo_kind = g.choose(["lower bound 0", "lower bound not 0"], "lo.class")
+    lo = cst(0) if lo_kind == "lower bound 0" else cst(g.int("lo"))
+    if lo_kind != "lower bound 0":
+        g.assume(lo.val != 0)
+    hi = g_bound(g, w, "hi", argtype="size")
+    s = g.pos("stride")
+    form = g.choose(["expr", "e / stride"], "outer_hi.form")
+    oh = g_bound(g, w, "outer_hi")
+    if form == "e / stride":
+        oh = bop("/", oh, cst(s))
+    oh_kind = g.choose(["outer_hi positive", "outer_hi not positive"], "outer_hi.class")
+    w.f42, w.f43 = lo_kind != "lower bound 0", oh_kind != "outer_hi positive"
+    close_world(g, w, [for_(w.I, lo, hi, [assign(w.X, [rd(w.I)])])])
+    return {"loop_cursor": w.cur[0], "outer_hi": oh, "outer_stride": s, "iter_o": "io", "iter_i": "ii",
+            "__ghost__": {"w": w, "s": s, "oh": oh}}
+
+@c_rec.requires
+def _(a):
+    v = evx(a.ghost.oh)
+    return (v <= 0) if a.ghost.w.f43 else (v > 0)
+
+
+def _rec_tuples(a):
+    s, OH = a.ghost.s, evx(a.ghost.oh)
+    def tuples(e, v):
+        if len(e.iters()) != 2:
+            return []
+        io = S.Min(S.Max(S.floordiv(v[0], s), 0), OH - 1)
+        return [(io, v[0] - s * io)]
+    return tuples
+
+
+def _idempotent_called_on(stmts_of):
+    def lic(a):
+        want = stmts_of(a)
+        for k in calls(a, "Check_IsIdempotent"):
+            got = list(k.stmts)
+            if k.proc is a.ghost.w.proc and len(got) == len(want) and all(x is y for x, y in zip(got, want)):
+                return True
+        return False
+    return lic
+
+use_checks(c_rec, "Check_IsIdempotent", "Check_IsNonNegativeExpr")
+install(c_rec, "set", lambda a, v, oev: single_iter_witness(a, v, oev, _rec_tuples(a)),
+        license=_idempotent_called_on(lambda a: a.ghost.w.focus[0].body))
+c_rec.native_entry = native_logged(["loop_cursor", "outer_hi", "outer_stride", "iter_o", "iter_i"])
+
+
+# ----------------------------------------------------------------------------
+# mult_loops
+
+c_prod = contract("C01", F, "DoProductLoop")
+c_prod.setup = _defdiv
+
+@c_prod.inputs
+def _(g):
+    w = new_world(g)
+    lo_o, lo_i = cst(g.int("lo_o")), cst(g.int("lo_i"))
+    hi_o = g_bound(g, w, "hi_o", kinds=("const", "arg"), argtype="size")
+    hi_i = g_bound(g, w, "hi_i", kinds=("const", "arg"), argtype="size")
+    shape = g.choose(["perfect nest", "second statement in outer body"], "nest")
+    inner = for_(w.J, lo_i, hi_i, [reduce_(w.X, [rd(w.I), rd(w.J)])])
+    body = [inner] + ([reduce_(w.Y, [rd(w.I), cst(0)], 2.0)] if shape != "perfect nest" else [])
+    close_world(g, w, [for_(w.I, lo_o, hi_o, body)], xdims=2)
+    return {"outer_loop_c": w.cur[0], "new_name": "k", "__ghost__": {"w": w, "c": hi_i}}
+
+install(c_prod, "exact", lambda a, v, oev: single_iter_witness(
+    a, v, oev, lambda e, v: [(v[0] * evx(a.ghost.c) + v[1],)] if len(v) == 2 else []))
+
+
+# ----------------------------------------------------------------------------
+# unroll_loop (trip count 0..3, symbolic lower bound)
+
+c_unr = contract("C01", F, "DoUnroll")
+
+@c_unr.inputs
+def _(g):
+    w = new_world(g)
+    lo, hi = g_bound(g, w, "lo", kinds=("const", "arg")), g_bound(g, w, "hi", kinds=("const", "arg"))
+    if isinstance(lo, LoopIR.Const) and isinstance(hi, LoopIR.Const):
+        g.assume(And(hi.val - lo.val >= 0, hi.val - lo.val <= 3))
+    close_world(g, w, [for_(w.I, lo, hi, [reduce_(w.X, [rd(w.I)])])])
+    return {"c_loop": w.cur[0], "__ghost__": {"w": w}}
+
+install(c_unr, "exact", lambda a, v, oev: [(e, {}) for e in oev if not e.iters()])
+c_unr.note("trip count hi - lo enumerated 0..3 (lower bound symbolic)")
+
+
+# ----------------------------------------------------------------------------
+# remove_loop / add_loop: same set of executions, licensed by idempotence
+
+c_rm = contract("C01", F, "DoRemoveLoop")
+
+@c_rm.inputs
+def _(g):
+    w = new_world(g)
+    lo, hi = g_bound(g, w, "lo"), g_bound(g, w, "hi", argtype="size")
+    uses = g.choose(["body ignores the iterator", "body uses the iterator"], "body")
+    idx = [cst(0)] if uses == "body ignores the iterator" else [rd(w.I)]
+    close_world(g, w, [for_(w.I, lo, hi, [assign(w.X, idx)])])
+    return {"loop": w.cur[0], "unsafe_disable_check": False, "__ghost__": {"w": w, "lo": lo}}
+
+use_checks(c_rm, "Check_IsIdempotent", "Check_IsPositiveExpr", "Check_CompareExprs")
+install(c_rm, "set", lambda a, v, oev: [(e, {}) for e in oev if not e.iters()],
+        wit_in=lambda a, v, iev: [(e, {id(e.iters()[0]): evx(a.ghost.lo)}) for e in iev],
+        license=_idempotent_called_on(lambda a: [a.ghost.w.focus[0]]))
+c_rm.native_entry = native_logged(["loop", "unsafe_disable_check"])
+
+
+c_add = contract("C01", F, "DoAddLoop")
+
+@c_add.inputs
+def _(g):
+    w = new_world(g)
+    hi = g_bound(g, w, "hi", argtype="size")
+    guard = g.choose([False, True], "guard")
+    close_world(g, w, [assign(w.X, [cst(0)])])
+    return {"stmt_cursor": w.cur[0], "var": "k", "hi": hi, "guard": guard, "unsafe_disable_check": False,
+            "__ghost__": {"w": w}}
+
+use_checks(c_add, "Check_IsIdempotent", "Check_IsPositiveExpr")
+install(c_add, "set", lambda a, v, oev: single_iter_witness(a, v, oev, lambda e, v: [(0,)]),
+        license=_idempotent_called_on(lambda a: [a.ghost.w.focus[0]]))
+c_add.native_entry = native_logged(["stmt_cursor", "var", "hi", "guard", "unsafe_disable_check"])
+
+
+# ----------------------------------------------------------------------------
+# fuse (loops): per-statement traces, interleaving licensed by Check_FissionLoop
+# on the fused loop, split exactly between the two original bodies
+
+c_fuse = contract("C01", F, "DoFuseLoop")
+
+@c_fuse.inputs
+def _(g):
+    w = new_world(g)
+    lo1, hi1 = g_bound(g, w, "lo1"), g_bound(g, w, "hi1", argtype="size")
+    lo2 = g_bound(g, w, "lo2")
+    hi2 = hi1 if w.kind == "arg" else g_bound(g, w, "hi2", argtype="size")      # see join_loops
+    focus = [for_(w.I, lo1, hi1, [reduce_(w.X, [rd(w.I)])]), for_(w.J, lo2, hi2, [reduce_(w.Y, [rd(w.J)], 2.0)])]
+    if g.choose(["adjacent", "separated"], "adjacent") == "separated":
+        focus.insert(1, assign(w.W, [cst(0)], 3.0))
+    close_world(g, w, focus)
+    return {"f_cursor": w.cur[0], "s_cursor": w.cur[-1], "unsafe_disable_check": False, "__ghost__": {"w": w}}
+
+
+def _fission_license(a, loops_split):
+    """one Check_FissionLoop call per split/fused loop: on a loop of the procedure it is given, with the two
+    statement lists partitioning that loop's body at the place where the rewrite splits / joins it"""
+    ks = calls(a, "Check_FissionLoop")
+    for loop, tags1, tags2 in loops_split:
+        ok = False
+        for k in ks:
+            s1, s2 = list(k.stmts1), list(k.stmts2)
+            same_loop = k.loop is loop or (isinstance(k.loop, LoopIR.For) and k.loop.iter is loop.iter)
+            if (same_loop and [e.tag for e in events(s1)] == tags1 and [e.tag for e in events(s2)] == tags2
+                    and [e.tag for e in events(k.loop.body)] == tags1 + tags2
+                    and any(k.loop is l for l in loops_of(k.proc.body))):
+                ok = True
+        if not ok:
+            return False
+    return True
+
+
+def _fuse_license(a):
+    w, out = a.ghost.w, out_focus(a)
+    fused = [s for s in out if isinstance(s, LoopIR.For)]
+    if len(fused) != 1:
+        return False
+    t1 = [e.tag for e in events(w.focus[0].body)]
+    t2 = [e.tag for e in events(w.focus[-1].body)]
+    ks = [k for k in calls(a, "Check_FissionLoop") if k.proc is a.result[0] and k.loop is fused[0]]
+    return _fission_license(a, [(fused[0], t1, t2)]) and len(ks) >= 1
+
+use_checks(c_fuse, "Check_ExprEqvInContext", "Check_FissionLoop")
+install(c_fuse, "per_tag", lambda a, v, oev: single_iter_witness(a, v, oev, lambda e, v: [v]),
+        license=_fuse_license)
+c_fuse.native_entry = native_logged(["f_cursor", "s_cursor", "unsafe_disable_check"])
+
+
+# ----------------------------------------------------------------------------
+# fuse (ifs), eliminate_dead_code
+
+def g_cond(g, w, name):
+    """a condition whose value does not depend on program state: n < c (n an argument, c symbolic literal)"""
+    if not hasattr(w, "N"):
+        w.N = Sym("n")
+        w.sizes.append(w.N)
+    return bop("<", rd(w.N, T.size), cst(g.int(name)))
+
+
+c_fif = contract("C01", F, "DoFuseIf")
+
+@c_fif.inputs
+def _(g):
+    w = new_world(g)
+    c1, c2 = g_cond(g, w, "c1"), g_cond(g, w, "c2")
+    e1 = g.choose([False, True], "first has else")
+    e2 = g.choose([False, True], "second has else")
+    A, B = reduce_(w.X, [cst(0)], 1.0), reduce_(w.X, [cst(1)], 2.0)
+    C, D = reduce_(w.Y, [cst(0)], 3.0), reduce_(w.Y, [cst(1)], 4.0)
+    focus = [if_(c1, [A], [B] if e1 else []), if_(c2, [C], [D] if e2 else [])]
+    if g.choose(["adjacent", "separated"], "adjacent") == "separated":
+        focus.insert(1, assign(w.W, [cst(0)], 3.0))
+    close_world(g, w, focus)
+    return {"f_cursor": w.cur[0], "s_cursor": w.cur[-1], "__ghost__": {"w": w}}
+
+use_checks(c_fif, "Check_ExprEqvInContext")
+install(c_fif, "exact", lambda a, v, oev: [(e, {}) for e in oev])
+
+
+c_dl = contract("C01", F, "DoEliminateDeadLoop")
+
+@c_dl.inputs
+def _(g):
+    w = new_world(g)
+    lo, hi = g_bound(g, w, "lo"), g_bound(g, w, "hi", argtype="size")
+    close_world(g, w, [for_(w.I, lo, hi, [reduce_(w.X, [rd(w.I)])])],
+                facts=[bop("<=", hi, lo)] if g.choose(["any loop", "asserted empty"], "facts") == "asserted empty" else [])
+    return {"loop_cursor": w.cur[0], "__ghost__": {"w": w}}
+
+use_checks(c_dl, "Check_CompareExprs")
+install(c_dl, "exact", lambda a, v, oev: [])
+
+
+c_db = contract("C01", F, "DoEliminateIfDeadBranch")
+
+@c_db.inputs
+def _(g):
+    w = new_world(g)
+    c1 = g_cond(g, w, "c1")
+    has_else = g.choose([False, True], "else")
+    A, B = reduce_(w.X, [cst(0)], 1.0), reduce_(w.X, [cst(1)], 2.0)
+    close_world(g, w, [if_(c1, [A], [B] if has_else else [])])
+    return {"if_cursor": w.cur[0], "__ghost__": {"w": w}}
+
+use_checks(c_db, "Check_ExprEqvInContext")
+install(c_db, "exact", lambda a, v, oev: [(e, {}) for e in oev])
+
+
+# ----------------------------------------------------------------------------
+# guards that read configuration state (F21 family)
+#
+# When a rewrite duplicates a guard, or moves it across / around statements,
+# the statements concerned must not change the guard's value: either they
+# write no configuration field the guard reads, or a Check_ExprEqvInContext
+# call on the guard (its value before vs. after those statements) licensed it.
+
+def g_guard(g, w, name, allow_cfg=True):
+    """(cond, kind): a pure condition, or one that reads the configuration field"""
+    kind = g.choose(["pure", "reads config"] if allow_cfg else ["pure"], name + ".kind")
+    if kind == "pure":
+        return g_cond(g, w, name), kind
+    return bop("==", TG.cfg_read(), cst(g.int(name))), kind
+
+
+def g_first_half(g, w, kind, stmt):
+    """the statements executed between two evaluations of the guard: `stmt` alone, or preceded by a write to
+    the configuration field the guard reads"""
+    if kind == "reads config" and g.choose(["keeps the field", "writes the field"], "first half") == "writes the field":
+        return [TG.cfg_write(cst(g.int("newval"))), stmt]
+    return [stmt]
+
+
+def guard_stable(cond_of, moved_of):
+    def clause(a):
+        cond, moved = cond_of(a), moved_of(a)
+        if not (TG.cfg_reads(cond) & TG.cfg_writes(moved)):
+            return True
+        for k in calls(a, "Check_ExprEqvInContext"):
+            if k.expr0 is cond and (k.expr1 is cond):
+                return True
+        return False
+    return clause
+
+GUARD_LABEL = "statements that run between two evaluations of a guard do not change what it reads"
+
+
+def _world_of(c, model, choices):
+    """re-run the contract's generator on the counterexample's shape and values"""
+    from pyvc.sym import ConcreteCtx
+    from pyvc.run import G
+    ctx = ConcreteCtx(values=model, choices=choices)
+    old = S.set_ctx(ctx)
+    try:
+        g = G(ctx)
+        if c.setup:
+            c.setup(g)
+        return c.gen(g)["__ghost__"]["w"]
+    finally:
+        S.set_ctx(old)
+
+
+def f21_witness(c, model, choices):
+    """F21: a guard reads a configuration field that is written by the statements the rewrite places between
+    two evaluations of that guard"""
+    return bool(getattr(_world_of(c, model, choices), "cfg_conflict", False))
+
+
+def f41_witness(c, model, choices):
+    """F41: join_loops of two loops whose bodies have different lengths"""
+    return bool(getattr(_world_of(c, model, choices), "f41", False))
+
+
+def f42_witness(c, model, choices):
+    """F42: divide_with_recompute of a loop whose lower bound is not 0"""
+    return bool(getattr(_world_of(c, model, choices), "f42", False))
+
+
+def f43_witness(c, model, choices):
+    """F43: divide_with_recompute with an outer extent that is not positive"""
+    w = _world_of(c, model, choices)
+    return bool(getattr(w, "f43", False)) and not getattr(w, "f42", False)
+
+
+def f44_witness(c, model, choices):
+    """F44: lift_scope of an if without else out of an if whose other branch is not empty"""
+    return bool(getattr(_world_of(c, model, choices), "f44", False))
+
+
+# ----------------------------------------------------------------------------
+# lift_scope
+
+c_lift = contract("C01", F, "DoLiftScope")
+
+@c_lift.inputs
+def _(g):
+    w = new_world(g)
+    shape = g.choose(["if in if-body", "if in if-orelse", "for in if", "if in for", "for in for"], "shape")
+    A = reduce_(w.X, [cst(0)], 1.0)
+    B = reduce_(w.X, [cst(1)], 2.0)
+    C = reduce_(w.Y, [cst(0)], 3.0)
+    gh = {"w": w, "shape": shape, "cond": None, "moved": []}
+    if shape in ("if in if-body", "if in if-orelse"):
+        co, ci = g_cond(g, w, "c_outer"), g_cond(g, w, "c_inner")
+        has_b = g.choose([False, True], "inner else")
+        inner = if_(ci, [A], [B] if has_b else [])
+        if shape == "if in if-body":
+            has_c = g.choose([False, True], "outer else")
+            extra = g.choose([False, True], "second statement in outer body")
+            outer = if_(co, [inner] + ([reduce_(w.W, [cst(0)], 4.0)] if extra else []), [C] if has_c else [])
+            pos = ("body", 0)
+            w.f44 = has_c and not has_b
+        else:
+            extra = g.choose([False, True], "second statement in outer orelse")
+            outer = if_(co, [C], [inner] + ([reduce_(w.W, [cst(0)], 4.0)] if extra else []))
+            pos = ("orelse", 0)
+            w.f44 = not has_b
+        close_world(g, w, [outer])
+        inner_c = w.cur[0].body()[0] if pos[0] == "body" else w.cur[0].orelse()[0]
+    elif shape == "for in if":
+        lo, hi = g_bound(g, w, "lo"), g_bound(g, w, "hi", argtype="size")
+        co, kind = g_guard(g, w, "c_outer")
+        st = reduce_(w.X, [rd(w.I)])
+        body = g_first_half(g, w, kind, st)
+        w.cfg_conflict = len(body) == 2
+        loop = for_(w.I, lo, hi, body)
+        has_c = g.choose([False, True], "outer else")
+        close_world(g, w, [if_(co, [loop], [C] if has_c else [])])
+        inner_c = w.cur[0].body()[0]
+        gh["cond"], gh["moved"] = co, body
+    elif shape == "if in for":
+        lo, hi = g_bound(g, w, "lo"), g_bound(g, w, "hi", argtype="size")
+        dep = g.choose(["guard ignores the iterator", "guard reads the iterator"], "guard")
+        if dep == "guard reads the iterator":
+            ci, kind = bop("<", rd(w.I), cst(g.int("c_inner"))), "pure"
+        else:
+            ci, kind = g_guard(g, w, "c_inner")
+        st = reduce_(w.X, [rd(w.I)])
+        body = g_first_half(g, w, kind, st)
+        w.cfg_conflict = len(body) == 2
+        has_b = g.choose([False, True], "inner else")
+        inner = if_(ci, body, [reduce_(w.Y, [rd(w.I)], 2.0)] if has_b else [])
+        close_world(g, w, [for_(w.I, lo, hi, [inner])])
+        inner_c = w.cur[0].body()[0]
+        gh["cond"], gh["moved"] = ci, body
+    else:
+        lo, hi = g_bound(g, w, "lo"), g_bound(g, w, "hi", argtype="size")
+        lo2, hi2 = g_bound(g, w, "lo2"), g_bound(g, w, "hi2", argtype="size")
+        extra = g.choose([False, True], "second statement in outer body")
+        inner = for_(w.J, lo2, hi2, [reduce_(w.X, [rd(w.I), rd(w.J)])])
+        close_world(g, w, [for_(w.I, lo, hi, [inner] + ([reduce_(w.W, [cst(0)], 4.0)] if extra else []))], xdims=2)
+        inner_c = w.cur[0].body()[0]
+    return {"inner_c": inner_c, "__ghost__": gh}
+
+
+def _lift_mode_clause(kind):
+    pass
+
+
+def _lift_witness(a, v, oev):
+    out = []
+    for e in oev:
+        its = e.iters()
+        if len(its) == len(v) == 2:
+            # loop interchange: the output nest is (j, i), the value is (i, j)
+            names = [it.name() for it in its]
+            env = {id(its[0]): v[1], id(its[1]): v[0]} if names == ["j", "i"] else \
+                {id(its[0]): v[0], id(its[1]): v[1]}
+            out.append((e, env))
+        elif len(its) == 1 and len(v) >= 1:
+            out.append((e, {id(its[0]): v[0]}))
+        elif not its:
+            out.append((e, {}))
+    return out
+
+
+def _lift_license(a):
+    if a.ghost.shape != "for in for":
+        return True
+    w = a.ghost.w
+    return any(k.proc is w.proc and k.s is w.focus[0] for k in calls(a, "Check_ReorderLoops"))
+
+
+def _lift_order(a):
+    """all shapes but the loop interchange keep the exact sequence"""
+    w, out = a.ghost.w, out_focus(a)
+    if a.g.concrete:
+        ti, to = run_trace(w.focus), run_trace(out)
+        if counts(ti) != counts(to) or a.ghost.shape == "for in for":
+            return True
+        return ti == to
+    oev = events(out)
+    if a.ghost.shape == "for in for":
+        return And(injective(w.in_events, "ji"), injective(oev, "jo"))
+    return And(increasing(w.in_events, "pi", same_tag_only=True), increasing(oev, "po", same_tag_only=True),
+               cross_order(oev, w.in_events))
+
+use_checks(c_lift, "Check_ReorderLoops", "Check_ExprEqvInContext")
+install(c_lift, "bag", _lift_witness, license=_lift_license,
+        extra=[("executions keep their order (loop interchange: no execution is duplicated)", _lift_order),
+               (GUARD_LABEL, guard_stable(lambda a: a.ghost.cond, lambda a: a.ghost.moved)
+                if True else None)])
+c_lift.native_entry = native_logged(["inner_c"])
+
+
+# ----------------------------------------------------------------------------
+# fission
+
+c_fis = contract("C01", F, "DoFissionAfterSimple")
+
+@c_fis.inputs
+def _(g):
+    w = new_world(g)
+    shape = g.choose(["for", "for, three statements", "for in for", "if-body", "if-orelse"], "shape")
+    gh = {"w": w, "shape": shape, "cond": None, "moved": [], "split": []}
+    if shape in ("for", "for, three statements"):
+        lo, hi = g_bound(g, w, "lo"), g_bound(g, w, "hi", argtype="size")
+        S1, S2, S3 = reduce_(w.X, [rd(w.I)]), reduce_(w.Y, [rd(w.I)], 2.0), reduce_(w.W, [rd(w.I)], 3.0)
+        body = [S1, S2] + ([S3] if shape != "for" else [])
+        at = g.choose(list(range(len(body) - 1)), "after")
+        close_world(g, w, [for_(w.I, lo, hi, body)])
+        cur, n = w.cur[0].body()[at], 1
+        gh["split"] = [(w.focus[0], at + 1)]
+    elif shape == "for in for":
+        lo, hi = g_bound(g, w, "lo"), g_bound(g, w, "hi", argtype="size")
+        lo2, hi2 = cst(g.int("lo2")), cst(g.int("hi2"))
+        S1, S2 = reduce_(w.X, [rd(w.I), rd(w.J)]), reduce_(w.Y, [rd(w.I), rd(w.J)], 2.0)
+        inner = for_(w.J, lo2, hi2, [S1, S2])
+        close_world(g, w, [for_(w.I, lo, hi, [inner])], xdims=2)
+        n = g.choose([1, 2], "n_lifts")
+        cur = w.cur[0].body()[0].body()[0]
+        gh["split"] = [(inner, 1)] + ([(w.focus[0], None)] if n == 2 else [])
+    else:
+        co, kind = g_guard(g, w, "c")
+        S1, S2 = reduce_(w.X, [cst(0)], 1.0), reduce_(w.Y, [cst(0)], 2.0)
+        other = [reduce_(w.W, [cst(0)], 3.0)] if g.choose([False, True], "other branch") else []
+        first = g_first_half(g, w, kind, S1)
+        w.cfg_conflict = len(first) == 2
+        if shape == "if-body":
+            close_world(g, w, [if_(co, first + [S2], other)])
+            cur = w.cur[0].body()[len(first) - 1]
+        else:
+            if not other:
+                other = [LoopIR.Pass(SRC)]
+            close_world(g, w, [if_(co, other, first + [S2])])
+            cur = w.cur[0].orelse()[len(first) - 1]
+        n = 1
+        # the guard is evaluated again after: the first half (same branch) - and, for a split of the orelse
+        # branch, after the whole `then` branch as well
+        gh["cond"], gh["moved"] = co, first + (other if shape == "if-orelse" else [])
+    return {"stmt_cursor": cur, "n_lifts": n, "unsafe_disable_checks": False, "__ghost__": gh}
+
+
+def _fis_license(a):
+    w = a.ghost.w
+    want = []
+    for loop, at in a.ghost.split:
+        if at is None:
+            # outer loop of the nest: split between the two copies of the inner loop
+            t = [e.tag for e in events(loop.body)]
+            want.append((loop, t[:1], t[1:]))
+        else:
+            want.append((loop, [e.tag for e in events(loop.body[:at])], [e.tag for e in events(loop.body[at:])]))
+    return _fission_license(a, want)
+
+
+def _fis_order(a):
+    w, out = a.ghost.w, out_focus(a)
+    exact = a.ghost.shape in ("if-body", "if-orelse")
+    if a.g.concrete:
+        ti, to = run_trace(w.focus), run_trace(out)
+        if counts(ti) != counts(to):
+            return True
+        return ti == to if exact else per_tag(ti) == per_tag(to)
+    oev = events(out)
+    cs = [increasing(w.in_events, "pi", same_tag_only=True), increasing(oev, "po", same_tag_only=True)]
+    if exact:
+        cs.append(cross_order(oev, w.in_events))
+    return And(cs)
+
+
+def _fis_witness(a, v, oev):
+    out = []
+    for e in oev:
+        its = e.iters()
+        if len(its) == len(v) and its:
+            out.append((e, {id(it): x for it, x in zip(its, v)}))
+        elif not its:
+            out.append((e, {}))
+    return out
+
+use_checks(c_fis, "Check_FissionLoop", "Check_ExprEqvInContext")
+install(c_fis, "bag", _fis_witness, license=_fis_license,
+        extra=[("the executions of each statement keep their order (if: all executions)", _fis_order),
+               (GUARD_LABEL, guard_stable(lambda a: a.ghost.cond, lambda a: a.ghost.moved))])
+c_fis.native_entry = native_logged(["stmt_cursor", "n_lifts", "unsafe_disable_checks"])
+
+
+# ----------------------------------------------------------------------------
+# reorder_stmts
+
+c_ro = contract("C01", F, "DoReorderStmt")
+
+@c_ro.inputs
+def _(g):
+    w = new_world(g)
+    A, B = reduce_(w.X, [cst(0)], 1.0), reduce_(w.Y, [cst(0)], 2.0)
+    focus = [A, B]
+    if g.choose(["adjacent", "separated"], "adjacent") == "separated":
+        focus.insert(1, reduce_(w.W, [cst(0)], 3.0))
+    close_world(g, w, focus)
+    return {"f_cursor": w.cur[0], "s_cursor": w.cur[-1], "__ghost__": {"w": w}}
+
+
+def _ro_license(a):
+    w = a.ghost.w
+    return any(k.proc is w.proc and k.s1 is w.focus[0] and k.s2 is w.focus[-1]
+               for k in calls(a, "Check_ReorderStmts"))
+
+use_checks(c_ro, "Check_ReorderStmts")
+install(c_ro, "per_tag", lambda a, v, oev: [(e, {}) for e in oev], license=_ro_license)
+c_ro.native_entry = native_logged(["f_cursor", "s_cursor"])
